@@ -776,3 +776,39 @@ def f_help(seed=1, triples=250):
 
 
 FAMILIES["help"] = f_help
+
+
+# ---------------------------------------------------------------- F-man (C19)
+def f_man():
+    def a(id, short=None, long=None, hide=False, help="", heading="", takes_value=False, pvs=(), hide_pv=False, env=""):
+        return {"id": b(id), "short": b(short) if short else [], "long": b(long) if long else [], "hide": hide, "help": b(help),
+                "heading": b(heading), "takes_value": takes_value,
+                "pvs": [{"name": b(n), "hide": h, "help": b(hp)} for (n, h, hp) in pvs], "hide_pv": hide_pv, "env": b(env)}
+
+    def s(name, hide=False, about=""):
+        return {"name": b(name), "hide": hide, "about": b(about)}
+
+    def m(label, args=(), subs=(), about="", after_help="", author="", version="", no_help_flag=False):
+        return {"fam": "man", "label": label, "alphabet": [], "env": {},
+                "md": {"name": b("prog"), "about": b(about), "after_help": b(after_help), "author": b(author), "version": b(version),
+                       "no_help_flag": no_help_flag, "args": list(args), "subs": list(subs)}}
+    D = [
+        m("bare", about="about text"),
+        m("flags+opts", [a("zqverbose", "v", "zqverbose", help="help v"), a("zqout", "o", "zqout", takes_value=True, help="help o", env="ZQ_ENV"),
+                         a("zqhid", None, "zqhid", hide=True, help="hidden help"), a("zqpos", help="help pos")],
+          about="line one\n\nline three", author="An Author", version="1.0"),
+        m("headings", [a("zqa", "a", "zqa", heading="First", help="ha"), a("zqb", "b", "zqb", heading="Second", help="hb"),
+                       a("zqc", None, "zqc", heading="First", help="hc"), a("zqh", None, "zqh", heading="First", hide=True, help="hh"),
+                       a("zqd", "d", None, help="hd")], after_help="after\nhelp", version="2"),
+        m("possible-values", [a("zqmode", "m", "zqmode", takes_value=True, help="mode help",
+                                pvs=[("zqfast", False, "fast help"), ("zqslow", False, ""), ("zqsecret", True, "secret")]),
+                              a("zqlvl", None, "zqlvl", takes_value=True, pvs=[("zqlo", False, ""), ("zqhi", False, "")]),
+                              a("zqnone", None, "zqnone", takes_value=True, pvs=[("zqx", True, "")], help="h")]),
+        m("subcommands", [a("zqf", "f", "zqf", help="hf")], [s("zqsub", about="sub about\nsecond"), s("zqhidden", hide=True, about="x"), s("zqother")],
+          about="about", author="me", version="3"),
+        m("no-help-flag", [a("zqpos1"), a("zqhidpos", hide=True)], no_help_flag=True, about="x"),
+    ]
+    return D
+
+
+FAMILIES["man"] = f_man
